@@ -275,3 +275,161 @@ def gen_tree(rng, depth=3, width=4, mtime=1_600_000_000_000_000_000, fill=0):
                 tree[rel] = {'k': 'file', 'data': ('%s#%d' % (rel, fill)).encode(), 'mtime_ns': mtime}
     grow('', depth)
     return tree
+
+
+# ------------------------------------------------------------------------------------------------
+# Repeated filters: lists of the shape [.., F, .., G, .., F, ..] where G has the opposite sign and overlaps F.
+# "The last matching filter wins" must hold when the same filter text occurs more than once; a list is only
+# interesting on a tree that contains paths matched by both F and G, so the witnesses are computed (python
+# re.fullmatch on the patterns' own texts) and planted in the trees.
+POOL_NAMES = NAMES + ['debug', 'trace.log', 'top.log', 'notes.txt', 'x.o', 'dist2', 'builder', 'my-dist', 'keep', 'x']
+
+
+def path_pool():
+    dirs = [n for n in POOL_NAMES if '.' not in n]
+    out = list(POOL_NAMES)
+    out += [d + '/' + n for d in dirs for n in POOL_NAMES]
+    out += [d + '/' + e + '/' + n for d in dirs[:6] for e in dirs[:6] for n in POOL_NAMES]
+    return out
+
+
+_POOL = None
+
+REPEAT_TABLE = [      # (F, G): own texts, spelled the same in python; F and G overlap
+    ('.*\\.log', 'debug/.*'), ('.*\\.tmp', 'a/.*'), ('a(/.*)?', 'a/x\\.tmp'), ('build|dist', '.*'), ('.*\\.txt', 'keep\\.txt|a/keep\\.txt'),
+    ('(?i).*\\.tmp', '.*/[^/]*'), ('.*/(build|target)', 'a/.*|b/.*'), ('[^/]*', 'a|b|keep\\.txt'), ('(a|b)(/.*)?', '.*/build|.*/dist|.*\\.tmp'),
+    ('dist/.*', '.*keep.*'), ('.*', '.*\\.(?:tmp|o)'), ('^debug(/.*)?$', '.*\\.log'), ('target|.*/target', '[^/]*/target'), ('x\\.tmp|X\\.TMP|.*/x\\.tmp', '(?i).*x\\.tmp'),
+]
+
+
+def both_match(fp, gp, pool=None):
+    """Paths of the pool that the regular expressions fp and gp (python texts) both match entirely."""
+    global _POOL
+    if pool is None:
+        if _POOL is None:
+            _POOL = path_pool()
+        pool = _POOL
+    cf, cg = py_compile(fp), py_compile(gp)
+    if cf is None or cg is None:
+        return []
+    return [p for p in pool if cf.fullmatch(p) and cg.fullmatch(p)]
+
+
+def gen_repeat_list(rng, table_index=None):
+    """One filter list with a repeated filter: returns (filters [(sign, Pat)], witnesses) or None when the
+    randomly drawn F and G have no common path in the pool.  Witnesses whose ancestors all take part come
+    first (their verdict is observable end to end)."""
+    if table_index is not None:
+        ft, gt = REPEAT_TABLE[table_index % len(REPEAT_TABLE)]
+        F, G = Pat(ft, ft, set(ft) - META), Pat(gt, gt, set(gt) - META)
+        if (table_index // len(REPEAT_TABLE)) % 2:
+            F, G = G, F
+    else:
+        F, G = gen_pathy_pattern(rng), gen_pathy_pattern(rng)
+        if F.rs == G.rs:
+            return None
+    wit = both_match(F.py, G.py)
+    if not wit:
+        return None
+    H = gen_pathy_pattern(rng)
+    sh = rng.choice('+-')
+    shape = rng.choice(['FGF', 'FGF', 'FGF', 'FGFH', 'HFGF', 'FGGF', 'FHGF', 'FGFGF', 'GFGF', 'FFGF'])
+    if table_index is not None and table_index < 2 * len(REPEAT_TABLE):
+        shape = 'FGF'
+
+    def observable(w):
+        parts = w.split('/')
+        return all(py_rule(pyf, '/'.join(parts[:i])) for i in range(1, len(parts)))
+    # both sign assignments occur; one under which no witness can be observed (an ancestor folder is excluded) is the second choice
+    signs = ['+', '-']
+    rng.shuffle(signs)
+    for sf in signs:
+        sg = '-' if sf == '+' else '+'
+        fl = [{'F': (sf, F), 'G': (sg, G), 'H': (sh, H)}[c] for c in shape]
+        pyf = [(s, p.py) for s, p in fl]
+        if any(observable(w) for w in wit):
+            break
+    rng.shuffle(wit)
+    wit.sort(key=lambda w: (not observable(w), w.count('/')))
+    return fl, wit
+
+
+def plant(tree, rel, node):
+    """Put `node` at `rel`, turning every ancestor into a folder; an existing folder at `rel` is kept."""
+    parts = rel.split('/')
+    for i in range(1, len(parts)):
+        anc = '/'.join(parts[:i])
+        if tree.get(anc, {}).get('k') != 'dir':
+            tree[anc] = {'k': 'dir'}
+    if tree.get(rel, {}).get('k') == 'dir':
+        return
+    tree[rel] = node
+
+
+def derive_dest(rng, src, mtime=1_600_000_000_000_000_000):
+    """A stale copy of part of the source plus entries of its own."""
+    dest = {'': {'k': 'dir'}}
+    for rel, node in src.items():
+        parent = rel.rsplit('/', 1)[0] if '/' in rel else ''
+        if rel and parent in dest and dest[parent]['k'] == 'dir' and rng.random() < 0.6:
+            dest[rel] = dict(node)
+            if node['k'] == 'file':
+                dest[rel] = {'k': 'file', 'data': b'old:' + node['data'], 'mtime_ns': mtime}
+    extra = gen_tree(rng, depth=2, width=3, mtime=mtime, fill=2)
+    for rel, node in extra.items():
+        parent = rel.rsplit('/', 1)[0] if '/' in rel else ''
+        if rel and rel not in dest and parent in dest and dest[parent]['k'] == 'dir':
+            dest[rel] = node
+    return dest
+
+
+def trees_with_witnesses(rng, witnesses, empty_dest=False):
+    """Source and destination trees that contain paths matched by both the repeated filter and the filter in
+    between: up to three witnesses on the source (two of them as stale copies on the destination) and up to
+    two more on the destination only."""
+    src = gen_tree(rng, depth=2, width=4, mtime=1_700_000_000_000_000_000, fill=1)
+    on_src = witnesses[:3]
+    for w in on_src:
+        plant(src, w, {'k': 'file', 'data': ('%s#w' % w).encode(), 'mtime_ns': 1_700_000_000_000_000_000})
+    if empty_dest:
+        return src, None
+    dest = derive_dest(rng, src)
+    for w in on_src[:2]:
+        if src[w]['k'] == 'file':
+            plant(dest, w, {'k': 'file', 'data': b'mine:' + src[w]['data'], 'mtime_ns': 1_600_000_000_000_000_000})
+        else:
+            plant(dest, w, {'k': 'dir'})
+    placed = 0
+    for w in witnesses[3:]:
+        parts = w.split('/')
+        ancs = ['/'.join(parts[:i]) for i in range(1, len(parts))]
+        if w in src or any(src.get(a, {'k': 'dir'})['k'] != 'dir' for a in ancs):
+            continue
+        plant(dest, w, {'k': 'file', 'data': ('%s#destonly' % w).encode(), 'mtime_ns': 1_600_000_000_000_000_000})
+        placed += 1
+        if placed == 2:
+            break
+    # planting may have turned a destination file into a folder: drop entries that lost their parent folder
+    for rel in sorted(dest, key=len, reverse=True):
+        if rel:
+            parent = rel.rsplit('/', 1)[0] if '/' in rel else ''
+            if dest.get(parent, {}).get('k') != 'dir':
+                del dest[rel]
+    return src, dest
+
+
+def yaml_sq(s):
+    """YAML single-quoted scalar (backslashes are literal, a quote is doubled)."""
+    return "'" + s.replace("'", "''") + "'"
+
+
+def spec_text(src, dest, filters, src_host=None, dest_host=None):
+    t = ''
+    if src_host:
+        t += 'src_hostname: %s\n' % src_host
+    if dest_host:
+        t += 'dest_hostname: %s\n' % dest_host
+    t += 'syncs:\n  - src: %s\n    dest: %s\n' % (yaml_sq(src), yaml_sq(dest))
+    if filters:
+        t += '    filters:\n' + ''.join('      - %s\n' % yaml_sq(f) for f in filters)
+    return t
